@@ -45,6 +45,7 @@ type BScenario struct {
 	Setup   []BOp    `json:"setup"`
 	Drivers [][]BOp  `json:"drivers"`
 	Profile string   `json:"profile"`
+	Small   bool     `json:"small,omitempty"` // small enough for a preemption-bounded enumeration of schedules
 }
 
 type bufExec struct {
@@ -152,9 +153,14 @@ func (l *loggingConsumer) Rollback() error {
 
 func (x *bufExec) do(g string, op BOp) {
 	switch op.K {
+	case "nop":
+		// only a scheduling point: lets the controller place the following call later relative to other goroutines
+		for i := 0; i <= op.N; i++ {
+			ctl.Gate("drv.nop")
+		}
 	case "put":
 		n := op.N
-		vals := make([]interface{}, n)
+		vals := make([]interface{}, n, n+3) // spare capacity: the library must not keep (or append into) the caller's slice
 		ivals := make([]int, n)
 		x.mu.Lock()
 		for i := range vals {
@@ -167,6 +173,11 @@ func (x *bufExec) do(g string, op BOp) {
 		x.r.Call(g, "Put", "ctx", op.Ctx, "vals", ivals)
 		var err error
 		p := safeCall(func() { err = x.b.Put(x.ctx(op.Ctx), vals...) })
+		// the producer reuses its slice after Put has returned: scribble over it (a buffer that aliased it would show -7)
+		for i := range vals {
+			vals[i] = -7
+		}
+		_ = append(vals, -8, -8, -8)
 		x.r.Ret(g, "Put", "r", cls(err, p), "msg", msg(err, p))
 	case "newc":
 		// a slot is created at most once: reserve it first
@@ -487,6 +498,61 @@ func genBufScenario(rng *rand.Rand, profile string, mode string) *BScenario {
 		}
 		return sc
 	}
+	// property-driven shapes for wake-ups (C05): one or two Gets parked on an empty buffer (or about to park) while a
+	// Put, a context cancellation, a consumer Close or a Buffer Close is placed somewhere around them
+	if (profile == "wake" && rng.Intn(100) < 60) || (profile == "close" && rng.Intn(100) < 25) {
+		ng := 1 + rng.Intn(2)
+		sc.NCtx = 2
+		sc.Drivers = nil
+		for c := 1; c <= ng; c++ {
+			sc.Setup = append(sc.Setup, BOp{K: "newc", C: c})
+		}
+		for c := 1; c <= ng; c++ {
+			ops := []BOp{{K: "get", C: c, Ctx: c}}
+			if rng.Intn(2) == 0 {
+				ops = append(ops, BOp{K: "get", C: c, Ctx: c}) // the value a failed Get would have returned comes next
+			}
+			sc.Drivers = append(sc.Drivers, ops)
+		}
+		var wakers []BOp
+		for c := 1; c <= ng; c++ {
+			switch rng.Intn(10) {
+			case 0, 1, 2, 3, 4, 5:
+				wakers = append(wakers, BOp{K: "cancel", Ctx: c})
+			case 6, 7:
+				wakers = append(wakers, BOp{K: "put", N: 1 + rng.Intn(2)})
+			}
+		}
+		switch rng.Intn(6) {
+		case 0:
+			wakers = append(wakers, BOp{K: "bclose"})
+		case 1:
+			wakers = append(wakers, BOp{K: "put", N: 1})
+		case 2:
+			wakers = append(wakers, BOp{K: "close", C: 1})
+		}
+		rng.Shuffle(len(wakers), func(i, j int) { wakers[i], wakers[j] = wakers[j], wakers[i] })
+		// one or two waker goroutines; every waker is preceded by a few pure scheduling points, which spread it in
+		// (scheduling) time relative to the Gets
+		groups := [][]BOp{wakers}
+		if len(wakers) > 1 && rng.Intn(2) == 0 {
+			groups = [][]BOp{wakers[:1], wakers[1:]}
+		}
+		for _, grp := range groups {
+			var spaced []BOp
+			for _, wk := range grp {
+				if k := rng.Intn(10); k > 0 {
+					spaced = append(spaced, BOp{K: "nop", N: k})
+				}
+				spaced = append(spaced, wk)
+			}
+			if len(spaced) > 0 {
+				sc.Drivers = append(sc.Drivers, spaced)
+			}
+		}
+		sc.Small = true
+		return sc
+	}
 	// setup: usually create the first consumer and maybe put something
 	if rng.Intn(4) > 0 {
 		sc.Setup = append(sc.Setup, BOp{K: "newc", C: 1})
@@ -530,6 +596,9 @@ func genBufScenario(rng *rand.Rand, profile string, mode string) *BScenario {
 			default:
 				op.C = 1 + rng.Intn(ncons)
 			}
+			if small && rng.Intn(4) == 0 {
+				ops = append(ops, BOp{K: "nop", N: rng.Intn(6)})
+			}
 			ops = append(ops, op)
 		}
 		sc.Drivers = append(sc.Drivers, ops)
@@ -538,6 +607,8 @@ func genBufScenario(rng *rand.Rand, profile string, mode string) *BScenario {
 }
 
 // runBufExec executes one scenario; mode "c" (controlled) or "f" (free-running).
+var bufDFS *sched.DFS // set while a scenario is being enumerated
+
 func runBufExec(execID int, sc *BScenario, mode string, seed int64, strategy string, replay []string, st *Stats, confirm bool) (evs []rec.Ev, res sched.Result, infra string) {
 	x := &bufExec{sc: sc, r: rec.New(), b: new(bigbuff.Buffer), cons: map[int]bigbuff.Consumer{}, reserved: map[int]bool{}, valSeq: map[string]int{}, st: st}
 	x.ctxs = make([]context.Context, sc.NCtx+1)
@@ -551,7 +622,7 @@ func runBufExec(execID int, sc *BScenario, mode string, seed int64, strategy str
 		cleaner = bigbuff.FixedBufferCleaner(sc.Cleaner.Max, sc.Cleaner.Target, nil)
 	}
 	self := sched.Goid()
-	opts := sched.Options{Seed: seed, Strategy: strategy, Replay: replay, PCTDepth: 3, IdleProb: 150, MaxSteps: 4000}
+	opts := sched.Options{Seed: seed, Strategy: strategy, Replay: replay, PCTDepth: 3, IdleProb: 150, MaxSteps: 4000, DFS: bufDFS}
 	if mode == "c" {
 		ctl.Begin(opts)
 	} else {
@@ -619,6 +690,9 @@ func runBufExec(execID int, sc *BScenario, mode string, seed int64, strategy str
 		}
 	}
 	stuck := waitTerminal()
+	if bufDFS != nil {
+		bufDFS.Frozen = true // only the main phase is enumerated
+	}
 	if infra == "" && !res.Diverged {
 		if stuck {
 			persist()
@@ -772,20 +846,49 @@ func cmdBuffer(args map[string]string) {
 		return
 	}
 	rng := rand.New(rand.NewSource(seed))
-	strategies := []string{"random", "pct", "random", "pct"}
+	strategies := []string{"hold", "random", "hold", "pct"}
+	var fixed *BScenario
+	if sf := args["scenario"]; sf != "" {
+		b, err := os.ReadFile(sf)
+		if err != nil {
+			fatalf("%v", err)
+		}
+		fixed = new(BScenario)
+		if err := json.Unmarshal(b, fixed); err != nil {
+			fatalf("%v", err)
+		}
+	}
 	for i := 0; i < n; i++ {
 		if budget > 0 && time.Since(t0) > budget {
 			break
 		}
 		sc := genBufScenario(rng, profile, mode)
+		if fixed != nil {
+			sc = fixed
+		}
 		eseed := rng.Int63()
 		// each scenario is run under a few different schedules in controlled mode
 		reps := 1
 		if mode == "c" {
 			reps = 3
 		}
+		dfsMax := int(atoi64(args["dfsmax"], 0))
+		if mode == "c" && sc.Small && dfsMax > 0 {
+			bufDFS = &sched.DFS{Bound: 2}
+			reps = dfsMax
+		}
 		for k := 0; k < reps; k++ {
 			strategy := strategies[(i+k)%len(strategies)]
+			if fs := args["strategy"]; fs != "" {
+				strategy = fs
+			}
+			if bufDFS != nil {
+				if !bufDFS.Next() {
+					st.OpCounts["dfs_exhausted"]++
+					break
+				}
+				strategy = "dfs"
+			}
 			evs, res, infra := runBufExec(st.Executions, sc, mode, eseed+int64(k), strategy, nil, st, false)
 			if infra != "" {
 				st.Infra = append(st.Infra, fmt.Sprintf("exec %d: %s", st.Executions, infra))
@@ -819,6 +922,12 @@ func cmdBuffer(args map[string]string) {
 			if len(st.Samples) < 2 {
 				st.Samples = append(st.Samples, map[string]any{"scenario": sc, "events": len(evs), "steps": len(res.Steps), "first_events": headEvents(evs, 12)})
 			}
+		}
+		if bufDFS != nil {
+			st.OpCounts["dfs_scenarios"]++
+			st.OpCounts["dfs_schedules"] += bufDFS.Schedules
+			st.OpCounts["dfs_diverged"] += bufDFS.Diverged
+			bufDFS = nil
 		}
 	}
 	w.Close()
